@@ -84,7 +84,7 @@ impl Property for C10 {
         let o = decode_options(&mut tc);
         let root = parse_docs(&p.bytes)?;
         let sort = || if o.by_name { SortBy::XmlName } else { SortBy::Unsorted };
-        let base_opts = Options { text_identifier: ST.into(), attribute_prefix: SP.into(), derive: String::new(), sort: sort() };
+        let base_opts = sut::opts_custom(SP, ST, "", o.by_name);
         let base = root.to_serde_struct(&base_opts);
         let actual = root.to_serde_struct(&o.to_options_literal());
         // the same options set through the builder must render the same bytes
